@@ -70,6 +70,7 @@ func LoadFilter(filter Filter) error {
 		}
 	}
 
+	verifSchedPoint()
 	if err = seccomp(seccompSetModeFilter, filter.Flag, unsafe.Pointer(program)); err != nil {
 		if err == syscall.ENOSYS {
 			return fmt.Errorf("failed loading seccomp filter: seccomp "+
@@ -110,6 +111,7 @@ func prctl(option uintptr, args ...uintptr) error {
 
 // seccomp syscall wrapper.
 func seccomp(op uintptr, flags FilterFlag, uargs unsafe.Pointer) error {
+	verifObserveSeccomp(op, flags, uargs)
 	_, _, e := syscall.Syscall(unix.SYS_SECCOMP, op, uintptr(flags), uintptr(uargs))
 	if e != 0 {
 		return e
